@@ -1,7 +1,8 @@
 /-
-  `crates/algorithms/src/walk.rs`: `PathWalker::{edge, begin, line_to, end}`, `RegularPattern`,
-  `RepeatedPattern`, `walk_along_path`, for polyline paths and without custom attributes
-  (`walk_along_path` wraps the walker in `NoAttributes`).
+  `crates/algorithms/src/walk.rs`: `PathWalker::{with_attributes, edge, begin, line_to,
+  quadratic_bezier_to, cubic_bezier_to, end}`, `RegularPattern`, `RepeatedPattern`,
+  `walk_along_path` (which wraps the walker in `NoAttributes` = 0 attributes).  Curves are
+  flattened through C09's model of `for_each_flattened_with_t`.
 
   * `Pat`       — a pattern as the sequence of its answers: the `k`-th call of `Pattern::next`
                   returns `next k` (`none` = stop).  `RegularPattern` and `RepeatedPattern`
@@ -47,6 +48,10 @@ structure Hit (α : Type) where
   distance : α
   /-- number of this callback (0-based; not observable, used to state the theorems) -/
   k : Nat
+  /-- `next_distance` and `distance` when the callback was issued: the attribute interpolation of
+  `PathWalker::edge` is `t2 = t.end * next_distance / distance` -/
+  nd : α
+  dist : α
 
 structure LoopOut (α : Type) where
   w : W1 α
@@ -66,13 +71,15 @@ def edgeLoop (pat : Pat α) (invD : α) : Nat → W1 α → α → α → LoopOu
     if w.nextDistance ≤ distance then
       match pat w.k with
       | some nd =>
-        consHit ⟨x + (w.nextDistance - w.leftover) * invD, w.advancement + w.nextDistance, w.k⟩
+        consHit ⟨x + (w.nextDistance - w.leftover) * invD, w.advancement + w.nextDistance, w.k,
+            w.nextDistance, distance⟩
           (edgeLoop pat invD fuel
             ⟨w.advancement + w.nextDistance, zero, nd, false, w.k + 1⟩
             (distance - w.nextDistance) (x + (w.nextDistance - w.leftover) * invD))
       | none =>
         ⟨⟨w.advancement + w.nextDistance, zero, w.nextDistance, true, w.k + 1⟩,
-          [⟨x + (w.nextDistance - w.leftover) * invD, w.advancement + w.nextDistance, w.k⟩], false⟩
+          [⟨x + (w.nextDistance - w.leftover) * invD, w.advancement + w.nextDistance, w.k,
+            w.nextDistance, distance⟩], false⟩
     else ⟨{ w with leftover := distance }, [], false⟩
 
 /-- 1-D `edge`: an edge of length `d` (`d < 1e-5` is skipped) -/
@@ -92,64 +99,114 @@ def walk1 (pat : Pat α) (fuel : Nat) : W1 α → List α → List (List (Hit α
     else if (edge1 pat fuel w d).fuelOut then ([(edge1 pat fuel w d).hits], (edge1 pat fuel w d).w, true)
     else walk1Cons (edge1 pat fuel w d) (walk1 pat fuel (edge1 pat fuel w d).w r)
 
-/-! ## 2-D walker -/
+/-! ## 2-D walker (`PathWalker`, with custom attributes and curves) -/
+
+variable [Transc α] [FlatConst α]
 
 structure W (α : Type) where
   prev : P α
   first : P α
   core : W1 α
   needMoveto : Bool
+  prevAttrs : List α
+  firstAttrs : List α
 
-/-- `WalkerEvent` (no attributes) -/
+/-- `WalkerEvent` -/
 structure WEvent (α : Type) where
   position : P α
   tangent : P α
   distance : α
+  attributes : List α
 
-/-- `PathWalker::with_attributes(0, start, …)` -/
-def init (start : α) : W α :=
-  ⟨⟨zero, zero⟩, ⟨zero, zero⟩, ⟨zero, zero, Scalar.max start zero, false, 0⟩, true⟩
+/-- `PathWalker::with_attributes(num_attributes, start, …)` -/
+def init (nattr : Nat) (start : α) : W α :=
+  ⟨⟨zero, zero⟩, ⟨zero, zero⟩, ⟨zero, zero, Scalar.max start zero, false, 0⟩, true,
+   List.replicate nattr zero, List.replicate nattr zero⟩
 
 def lastPos (dflt : P α) : List (WEvent α) → P α
   | [] => dflt
   | [e] => e.position
   | _ :: r => lastPos dflt r
 
-/-- `PathWalker::edge` for a straight edge from `w.prev` to `to` with the callback of `line_to` -/
-def edge [Transc α] (pat : Pat α) (fuel : Nat) (w : W α) (to : P α) (tangent : P α) :
-    W α × List (WEvent α) × Bool :=
+/-- `PathWalker::edge(to, t, attributes, pos_cb)`: the 1-D loop, the callback positions through
+`pos_cb`, and the attribute buffer exactly as the code fills it:
+`prev_attributes[i] * (1 - t2) + attributes[i] * t2` with `t2 = t.end * next_distance / distance`
+(this is NOT the interpolation at the visited point once an edge carries a leftover or a second
+callback — the property does not speak about walker attributes; the tie pins the behaviour). -/
+def edge (pat : Pat α) (fuel : Nat) (w : W α) (to : P α) (tEnd : α) (attrs : List α)
+    (posCb : α → P α × P α) : W α × List (WEvent α) × Bool :=
   let o := edge1 pat fuel w.core (Measure.vlen (to - w.prev))
-  let evs := o.hits.map (fun h => (⟨w.prev.lerp to h.x, tangent, h.distance⟩ : WEvent α))
+  let evs := o.hits.map (fun h =>
+    (⟨(posCb h.x).1, (posCb h.x).2, h.distance,
+      Measure.interp w.prevAttrs attrs (tEnd * h.nd / h.dist)⟩ : WEvent α))
   if Measure.vlen (to - w.prev) < ofSci 1 5 then (w, [], false)
   else ({ w with core := o.w, prev := if o.w.done then lastPos w.prev evs else to }, evs, o.fuelOut)
 
+/-- the callback of `line_to` / `end(close)`: `(LineSegment{from,to}.sample(x), tangent)` -/
+def lineCb (frm to : P α) (x : α) : P α × P α := (frm.lerp to x, Measure.normalize (to - frm))
+
+/-- the callback of `quadratic_bezier_to` for the flattened piece `t0..t1` -/
+def quadCb (q : Quad α) (t0 t1 x : α) : P α × P α :=
+  (q.sample (t0 + x * (t1 - t0)), Measure.normalize (q.derivative (t0 + x * (t1 - t0))))
+
+def cubicCb (c : Cubic α) (t0 t1 x : α) : P α × P α :=
+  (c.sample (t0 + x * (t1 - t0)), Measure.normalize (c.derivative (t0 + x * (t1 - t0))))
+
+/-- the closure passed to `for_each_flattened_with_t`: `if !self.done { self.edge(line.to, t, …) }`
+for each flattened piece in turn -/
+def pieces (pat : Pat α) (fuel : Nat) (attrs : List α) (cb : α → α → α → P α × P α) :
+    W α → List (FlatSeg α) → W α × List (WEvent α) × Bool
+  | w, [] => (w, [], false)
+  | w, s :: r =>
+    if w.core.done then (w, [], false)
+    else
+      let o := edge pat fuel w s.b s.t1 attrs (cb s.t0 s.t1)
+      if o.2.2 then o
+      else
+        let rest := pieces pat fuel attrs cb o.1 r
+        (rest.1, o.2.1 ++ rest.2.1, rest.2.2)
+
 inductive PEv (α : Type) where
-  | begin (at_ : P α)
-  | line (to : P α)
+  | begin (at_ : P α) (a : List α)
+  | line (to : P α) (a : List α)
+  | quad (ctrl to : P α) (a : List α)
+  | cubic (ctrl1 ctrl2 to : P α) (a : List α)
   | end_ (close : Bool)
 
-/-- `path_event`: `begin` / `line_to` / `end(close)` -/
-def pathEvent [Transc α] (pat : Pat α) (fuel : Nat) (w : W α) : PEv α → W α × List (WEvent α) × Bool
-  | .begin p => ({ w with needMoveto := false, first := p, prev := p }, [], false)
-  | .line to => edge pat fuel w to (Measure.normalize (to - w.prev))
+/-- `begin` / `line_to` / `quadratic_bezier_to` / `cubic_bezier_to` / `end(close)`;
+`tol` is the walker's flattening tolerance (used as given, no clamping) -/
+def pathEvent (pat : Pat α) (fuel : Nat) (tol : α) (w : W α) : PEv α → W α × List (WEvent α) × Bool
+  | .begin p a =>
+    ({ w with needMoveto := false, first := p, prev := p, prevAttrs := a, firstAttrs := a }, [], false)
+  | .line to a =>
+    let r := edge pat fuel w to one a (lineCb w.prev to)
+    ({ r.1 with prevAttrs := a }, r.2.1, r.2.2)
+  | .quad c to a =>
+    let r := pieces pat fuel a (quadCb ⟨w.prev, c, to⟩) w
+      ((Quad.forEachFlattenedWithT ⟨w.prev, c, to⟩ tol).getD [])
+    ({ r.1 with prevAttrs := a }, r.2.1, r.2.2)
+  | .cubic c1 c2 to a =>
+    let r := pieces pat fuel a (cubicCb ⟨w.prev, c1, c2, to⟩) w
+      ((Cubic.forEachFlattenedWithT ⟨w.prev, c1, c2, to⟩ tol).getD [])
+    ({ r.1 with prevAttrs := a }, r.2.1, r.2.2)
   | .end_ true =>
-    let r := edge pat fuel w w.first (Measure.normalize (w.first - w.prev))
+    let r := edge pat fuel w w.first one w.firstAttrs (lineCb w.prev w.first)
     ({ r.1 with needMoveto := true }, r.2.1, r.2.2)
   | .end_ false => (w, [], false)
 
-/-- `walk_along_path` -/
-def walkFrom [Transc α] (pat : Pat α) (fuel : Nat) : W α → List (PEv α) → List (WEvent α) × Bool
+/-- `walk_along_path` (and, with attributes, the same loop over `PathWalker::with_attributes`) -/
+def walkFrom (pat : Pat α) (fuel : Nat) (tol : α) : W α → List (PEv α) → List (WEvent α) × Bool
   | _, [] => ([], false)
   | w, e :: r =>
-    let o := pathEvent pat fuel w e
+    let o := pathEvent pat fuel tol w e
     if o.2.2 then (o.2.1, true)
     else if o.1.core.done then (o.2.1, false)
     else
-      let rest := walkFrom pat fuel o.1 r
+      let rest := walkFrom pat fuel tol o.1 r
       (o.2.1 ++ rest.1, rest.2)
 
-def walk [Transc α] (pat : Pat α) (fuel : Nat) (start : α) (evs : List (PEv α)) :
+def walk (pat : Pat α) (fuel : Nat) (nattr : Nat) (tol start : α) (evs : List (PEv α)) :
     List (WEvent α) × Bool :=
-  walkFrom pat fuel (init start) evs
+  walkFrom pat fuel tol (init nattr start) evs
 
 end Lyon.Walk
